@@ -88,6 +88,7 @@ class HDict(dict):
     def __init__(self, *a, **kw):
         dict.__init__(self, *a, **kw)
         self.sym = []
+        self.base_term = None      # Val term of an opaque prefix (loop invariants over dicts that grow)
 
     def sym_set(self, it, k, v):
         ctx = it.ctx
@@ -104,7 +105,7 @@ class HDict(dict):
         self.sym.append([k, v])
 
     def total(self):
-        return dict.__len__(self) + len(self.sym)
+        return dict.__len__(self) + len(self.sym) + (1 if self.base_term is not None else 0)
 
 
 class Handle:
@@ -1375,6 +1376,15 @@ def list_method(it, l, name, args, kwargs):
         return None
     if name == 'extend':
         l.extend(it.iterate(args[0]))
+        return None
+    if name == 'sort' and any(isinstance(e, Chunk) for e in l):
+        rev = kwargs.get('reverse', False)
+        if kwargs.get('key') is not None:
+            raise Unsupported("sort with key")
+        ctx.assumed_models.add("list.sort(reverse=r) of a symbolic-length list: the list becomes spec_sorted(list, r) "
+                               "(a sorted rearrangement; with distinct names reverse=True is the exact reverse)")
+        t = ufun('spec_sorted', JsonSort, z3.BoolSort(), JsonSort)(list_term(l), zbool(rev) if not isinstance(rev, bool) else z3.BoolVal(rev))
+        l[:] = [Chunk(t)]
         return None
     if name == 'sort':
         rev = kwargs.get('reverse', False)
